@@ -305,6 +305,11 @@ void run_C08(void) {
         if (cfg == 2 && op_is_big(op)) continue;  // big ops do not exist on NTT120 modules
         const MODULE_TYPE mt = cfg == 2 ? NTT120 : FFT64;
         const int native = cfg != 1;
+        // a fixed core of shapes for every (operation, configuration, N), so that no dimension goes unvisited
+        {
+          static const uint64_t CORE[][3] = {{1, 1, 1}, {2, 2, 2}, {3, 1, 2}, {1, 3, 0}, {2, 0, 3}, {0, 2, 1}, {4, 3, 4}};
+          for (size_t c = 0; c < ARRAY_LEN(CORE); c++) one_case(op, 0, mt, native, N, CORE[c][0], CORE[c][1], CORE[c][2], (unsigned)c % 4, (unsigned)(c + 1) % 4, (unsigned)(c + 2) % 4, (int)(c & 1), 50);
+        }
         // full box for small N; for large N a sampled sub-box (more in thorough)
         for (uint64_t rs = 0; rs <= 4; rs++)
           for (uint64_t as = 0; as <= (ar >= 1 ? 4u : 0u); as++)
